@@ -166,7 +166,7 @@ func (e *Encoder) writeMultiPoint(mp orb.MultiPoint, srid int) error {
 	}
 
 	for _, p := range mp {
-		err := e.Encode(p, 0)
+		err := e.encode(p, 0)
 		if err != nil {
 			return err
 		}
